@@ -151,6 +151,42 @@ def body_stream(case, rec):
         raise Violation("reversed stream is not wrapped like the forward one")
 
 
+def large_cases(tier, shard, nshards):
+    sizes = [65535, 65536, 65537, 2**20 - 1, 2**20, 2**20 + 1, 2**21 + 12345, 3 * 2**20]
+    for k, n in enumerate(sizes):
+        if k % nshards == shard:
+            yield {"size": n, "buffer": [4_000_000, 2**20, 250_000][k % 3]}
+
+
+def body_large(case, rec):
+    """reverse complement of inputs around 64 KiB / 1 MiB / 2 MiB, directly and streamed as one minus-strand fragment"""
+    n = case["size"]
+    rec.note(case, True, ())
+    pattern = b"ACGTRYKMacgtnNBDHVswSW-*xU"
+    seq = (pattern * (n // len(pattern) + 1))[:n]
+    table = bytes(ref.COMPLEMENT.get(c, c) for c in range(256))
+    want = seq[::-1].translate(table)
+    got = must(simple.reverse_complement, seq, what=f"reverse_complement({n} bytes)")
+    if got != want:
+        k = next((i for i, (x, y) in enumerate(zip(got, want)) if x != y), min(len(got), len(want)))
+        raise Violation(f"reverse_complement of {n} bytes: {len(got)} bytes returned, first difference at {k}")
+    if must(simple.reverse_complement, got, what="reverse_complement") != seq:
+        raise Violation(f"reverse_complement twice changed an input of {n} bytes")
+    data = b">big\n" + b"".join(seq[i : i + 80] + b"\n" for i in range(0, n, 80))
+    with fa.TempFasta(data) as path:
+        fai = FastaIndex(path, case["buffer"])
+        fai.index = fa.ref_index(data)
+        try:
+            from tola.assembly.assembly import Assembly
+
+            s = Scaffold("s", [Fragment("big", 1, n, -1)])
+            out = must(fa.stream_bytes, fai, Assembly("a", scaffolds=[s]), 60, what="streaming a large minus-strand fragment")
+        finally:
+            fa.close(fai)
+    if out != b">s\n" + ref.wrap(want, 60):
+        raise Violation(f"streaming a minus-strand fragment of {n} residues with buffer {case['buffer']} is not its reverse complement")
+
+
 TAGS = ["Painted", "Cut", "Hap1", "X", "Unloc"]
 
 
@@ -193,6 +229,8 @@ SUBS = [
             st.text(alphabet=st.characters(min_codepoint=0, max_codepoint=255), max_size=80),
             st.text(alphabet="ACGTRYMKSWHBVDNacgtrymkswhbvdn-*xU", max_size=200))),
         body=body_bytes, budget={"quick": 8000, "thorough": 100000}, desc="reverse_complement twice = identity, equals reference"),
+    Sub("large", kind="enum", cases=large_cases, body=body_large,
+        budget={"quick": 8, "thorough": 8}, desc="byte strings and minus-strand fragments of 64 KiB / 1 MiB / 2 MiB +-1 (block-wise code paths)"),
     Sub("scaffold", kind="hyp", strategy=scaffold_cases, body=body_scaffold,
         budget={"quick": 8000, "thorough": 150000}, desc="Scaffold.reverse laws, OverlapResult.to_scaffold with minus bait"),
     Sub("stream", kind="hyp", strategy=stream_cases, body=body_stream,
